@@ -112,6 +112,7 @@ func run(c *props.Ctx) {
 	attr1(c, fns)
 	short1(c)
 	pc1(c)
+	divGuards(c)
 	round1(c)
 	elemLaws(c)
 	neighbourOps(c, cfg)
